@@ -13,8 +13,16 @@ import (
 	symx "github.com/pinealctx/neptune/zzsymx"
 )
 
+// verifNetTimeout: what a net.Conn returns when a read or write deadline expires (a net.Error with
+// Timeout() and Temporary() both true, like os.ErrDeadlineExceeded)
+type verifNetTimeout struct{}
+
+func (verifNetTimeout) Error() string   { return "i/o timeout (injected)" }
+func (verifNetTimeout) Timeout() bool   { return true }
+func (verifNetTimeout) Temporary() bool { return true }
+
 var (
-	verifErrTimeout = errors.New("i/o timeout (injected)")
+	verifErrTimeout error = verifNetTimeout{}
 	verifErrIO      = errors.New("connection reset (injected)")
 	verifErrClosed  = errors.New("use of closed network connection")
 )
@@ -36,11 +44,26 @@ type verifConn struct {
 	closeCh    chan struct{}
 	readFaults bool // may a Read on an empty inbox end with EOF / timeout (otherwise it blocks until closed)
 	writeFault bool // may a Write fail
+	now        func() time.Time // the harness clock (nil: deadlines are not modelled)
+	wDeadline  time.Time        // last write deadline set; a Write after it fails with a timeout although the peer reads
+	faulted    bool // a terminating event was injected on this connection (peer closed, read/write error or timeout)
 	mu         sync.Mutex
 }
 
 func newVerifConn(in []byte, readFaults, writeFault bool) *verifConn {
 	return &verifConn{inbox: in, closeCh: make(chan struct{}), readFaults: readFaults, writeFault: writeFault}
+}
+
+func (c *verifConn) fault() {
+	c.mu.Lock()
+	c.faulted = true
+	c.mu.Unlock()
+}
+
+func (c *verifConn) hasFaulted() bool {
+	c.mu.Lock()
+	defer c.mu.Unlock()
+	return c.faulted
 }
 
 func (c *verifConn) isClosed() bool {
@@ -61,8 +84,10 @@ func (c *verifConn) Read(p []byte) (int, error) {
 	if c.readFaults {
 		switch symx.Concrete(symx.Int("readEnds"), 0, 2) {
 		case 0:
+			c.fault()
 			return 0, io.EOF
 		case 1:
+			c.fault()
 			return 0, verifErrTimeout
 		}
 	}
@@ -74,8 +99,20 @@ func (c *verifConn) Write(p []byte) (int, error) {
 	if c.isClosed() {
 		return 0, verifErrClosed
 	}
-	if c.writeFault && symx.Bool("writeFails") {
-		return 0, verifErrIO
+	if c.writeExpired() {
+		// the deadline armed for this connection's writes has passed: the write fails at once
+		c.fault()
+		return 0, verifErrTimeout
+	}
+	if c.writeFault {
+		switch symx.Concrete(symx.Int("writeEnds"), 0, 2) {
+		case 1:
+			c.fault()
+			return 0, verifErrIO
+		case 2: // the write deadline expired: the peer stopped reading
+			c.fault()
+			return 0, verifErrTimeout
+		}
 	}
 	c.outbox = append(c.outbox, p...)
 	return len(p), nil
@@ -95,7 +132,18 @@ func (c *verifConn) LocalAddr() net.Addr                { return verifAddr{} }
 func (c *verifConn) RemoteAddr() net.Addr               { return verifAddr{} }
 func (c *verifConn) SetDeadline(t time.Time) error      { return nil }
 func (c *verifConn) SetReadDeadline(t time.Time) error  { return nil }
-func (c *verifConn) SetWriteDeadline(t time.Time) error { return nil }
+func (c *verifConn) SetWriteDeadline(t time.Time) error {
+	c.mu.Lock()
+	c.wDeadline = t
+	c.mu.Unlock()
+	return nil
+}
+
+func (c *verifConn) writeExpired() bool {
+	c.mu.Lock()
+	defer c.mu.Unlock()
+	return c.now != nil && !c.wDeadline.IsZero() && c.now().After(c.wDeadline)
+}
 
 // handler: consumes one byte per call, or fails, or panics, by symbolic choice
 type verifHandler struct {
@@ -133,21 +181,31 @@ func (h *verifHandler) Read(s *Session) error {
 func (h *verifHandler) OnExit(s *Session) { atomic.AddInt32(&h.exits, 1) }
 
 // logging helpers (atomic loads of the session's value / remote address for log fields) get empty bodies
-func verifStubLogging() {
-	clock := time.Unix(1700000000, 0)
-	symx.Stub("time.Now", func() time.Time { return clock })
+func verifStubLogging() *time.Time {
+	clock := new(time.Time)
+	*clock = time.Unix(1700000000, 0)
+	symx.Stub("time.Now", func() time.Time { return *clock })
 	symx.Stub("github.com/pinealctx/neptune/stcp.absSessionInfo", func(v interface{}, ext ...interface{}) []zap.Field { return nil })
 	symx.Stub("github.com/pinealctx/neptune/stcp.absRemoteAddr", func(a interface{}, c net.Conn) string { return "" })
+	return clock
 }
 
 // C16/H1: one session: Start, up to two Sends, then terminating events at symbolic points; at
 // quiescence the session has ended exactly once.
 func VerifH_SessionEndsOnce() {
-	verifStubLogging()
+	clock := verifStubLogging()
 	faults := symx.Param("faults", 1) == 1
 	h := &verifHandler{faults: faults}
-	mgr := NewSessionMgr(h)
+	// write deadline 8 s, read deadline 1 h; idle periods of 1 min (no-fault family): longer than a write
+	// may take, far shorter than the peer may stay silent
+	mgr := NewSessionMgr(h, WithWriteTimeout(8*time.Second), WithReadTimeout(time.Hour))
 	conn := newVerifConn(symx.Bytes("peerData", symx.Concrete(symx.Int("peerBytes"), 0, 2)), faults, faults)
+	conn.now = func() time.Time { return *clock }
+	idle := func() {
+		// the session sits idle for a minute: both loops parked, nothing queued
+		symx.WaitQuiescent()
+		*clock = clock.Add(time.Minute)
+	}
 	before := mgr.ConnCount()
 	s := NewSession(mgr, conn)
 	s.Start()
@@ -162,6 +220,9 @@ func VerifH_SessionEndsOnce() {
 		}
 		if i == nSend {
 			break
+		}
+		if !faults && symx.Bool("idleBeforeSend") {
+			idle()
 		}
 		b := symx.Uint8("payload")
 		if s.Send([]byte{b}) == nil {
@@ -180,6 +241,8 @@ func VerifH_SessionEndsOnce() {
 				symx.Assert(conn.outbox[i] == accepted[i], "in order")
 			}
 		}
+	} else if conn.hasFaulted() || h.ended {
+		symx.Assert(symx.OthersDone(), "a peer close, read/write error or timeout, or a failing handler ends the session by itself")
 	} else if closeAt > nSend && !symx.OthersDone() {
 		// no terminating event occurred on this path (peer silent, no fault chosen): end it and re-check
 		s.Close()
